@@ -376,7 +376,11 @@ fn collect_validator_entries_inner(
     path: &PathKey,
     out: &mut Vec<(PathKey, String)>,
 ) {
-    for (field, kind) in errors.errors() {
+    // `ValidationErrors` keeps its fields in a randomly seeded `HashMap`: visit them in a
+    // fixed (name) order so that the same failure always renders the same report.
+    let mut fields: Vec<_> = errors.errors().iter().collect();
+    fields.sort_by(|a, b| a.0.cmp(b.0));
+    for (field, kind) in fields {
         let field_path = path.clone().join(field.as_ref());
         match kind {
             ValidationErrorsKind::Field(entries) => {
